@@ -98,11 +98,6 @@ def allowed_eps(life):
     return out
 
 
-def max_radius_deg(life, eps):
-    return max(hl.radius_deg_upper(life["kind"], r) if life["kind"] == "rs" else float(F(r[0]) + r[1] * eps / 2)
-               for c in life["calls"] for r in c["rad"])
-
-
 def life_cost(life, eps, depth):
     """expected number of trixels the circle intersections of the whole life enumerate (cost control only)"""
     tot = 0.0
@@ -330,7 +325,13 @@ def judge(ctx, lives, results, what, cap=4):
         for r in members[rid]:
             nrej += 1
             life = lives[r["lid"]]
-            for n, clause in sorted(tuple(x) for x in rejects[rid]):
+            fails = sorted(tuple(x) for x in rejects[rid])
+            # a pair file that differs from the in-memory result is reported as that, not once more per clause its
+            # contents break
+            filebad = {n for n, clause in fails if clause.startswith("file_")}
+            for n, clause in fails:
+                if n in filebad and not clause.startswith("file_"):
+                    continue
                 call = r["calls"][n - 1]
                 sig = signature(life, call, r["var"], clause)
                 if emitted.get(sig, 0) >= cap:
@@ -485,8 +486,7 @@ def off_points(rs, n):
 
 
 def off_case(arg):
-    """returns None or a dict describing the first broken relation"""
-    import esutil.htm as H
+    """returns None (no usable radius), {"ok": True, ...} or a dict describing the first broken relation"""
     seed, nmax, budget, depths_all = arg
     rs = np.random.RandomState(seed % (2 ** 32))
     n2 = int(rs.choice([1, 2, 5, nmax // 3 + 1, nmax]))
@@ -523,7 +523,6 @@ def off_case(arg):
     depths = [d for d in depths_all if len(ra1) * hl.trixels_in_cap(maxr, d) <= budget] or [1]
     dsel = sorted(set([depths[0], depths[-1]] + [depths[int(i)] for i in rs.randint(0, len(depths), 2)]))
     k = int(rs.choice([1, 2, 3, n2 + 1]))
-    ref = None
     case = {"kind": "offlattice", "ra1": [x.hex() for x in ra1.tolist()], "dec1": [x.hex() for x in dec1.tolist()],
             "ra2": [x.hex() for x in ra2.tolist()], "dec2": [x.hex() for x in dec2.tolist()],
             "rad": [float(x).hex() for x in np.atleast_1d(radarg).tolist()], "depths": dsel, "k": k, "family": fam}
